@@ -251,7 +251,9 @@ PLANS["C02"] = plan_core("C02", "c02", "conservation law at quiescent points", m
                              # the weak kind (empty value = dangling Weak <-> null): counts and borrow slots of a container of Weak
                              core_token("C02.weak.token", "c02", T(tier, 800, 30000), alloc="real", extra=["val=weak"]),
                              # exact accounting when a pointee destructor / clone / closure panics (second-round seed C02y)
-                             {"name": "C02.panic.seq", "flavour": "native", "args": ["panic", "mode=seq", "execs=%d" % T(tier, 800, 20000), "cap=8"], "shards": 2, "threads": 1, "timeout": 1200}])
+                             {"name": "C02.panic.seq", "flavour": "native", "args": ["panic", "mode=seq", "execs=%d" % T(tier, 800, 20000), "cap=8"], "shards": 2, "threads": 1, "timeout": 1200},
+                             # destructor panics under concurrency (directed debt-walk and helped-reader scenarios included): counts lost by an unwinding
+                             {"name": "C02.panic.token", "flavour": "native", "args": ["panic", "mode=token", "execs=%d" % T(tier, 800, 20000), "cap=8"], "shards": 4, "threads": 3, "timeout": 2400}])
 PLANS["C03"] = plan_core("C03", "c03", "history linearizability", asan=False,
                          extra_jobs=lambda tier, seed: [life_job("C03.life.token", "token", execs=T(tier, 1000, 30000), profile="c03"), miri_core_job("C03", "c03", tier)] + miri_sb_jobs("C03", tier))
 PLANS["C04"] = plan_core("C04", "c04", "chain / conservation of writes", asan=False, extra_jobs=lambda tier, seed: [miri_core_job("C04", "c04", tier, 4, 96)] + miri_sb_jobs("C04", tier, quick_seeds=16, thorough_seeds=256), required=["load.fast_confirmed", "load.fallback_confirmed", "write.helped_reader"])
